@@ -36,6 +36,9 @@ INVARIANT = {SIZE(SUB): lin_add(N, num(-1)), SIZE(MAIN): N, SIZE(SUP): lin_add(N
 
 
 def run(rep, pdb, tier):
+    # ---- the solvers answer for every nonsingular system: their own panics depend on shapes (or an exactly-zero pivot) only
+    from .c01 import rule_rejects_only_shapes
+    rule_rejects_only_shapes(rep, pdb, [f_ for f_ in (pdb.fn("%s::%s" % (T, n_)) for n_ in ('solve', 'det')) if f_ is not None], floor=1)
     # ---- storage map
     maps = []
     for tr, name in (("std::ops::Index", "index"), ("std::ops::IndexMut", "index_mut")):
@@ -241,7 +244,20 @@ def run(rep, pdb, tier):
                 stmts = blk.get("stmts", [])
                 idx = [i for i, s in enumerate(stmts) if s is st]
                 guarded = False
-                if idx:
+                if idx and val[0] not in ("var", "num"):
+                    # the value was tested just before it was stored (`let pivot = ..; if pivot == zero { panic }; beta = pivot;`: the immutable
+                    # name is inlined, so the guard and the assignment carry the same term)
+                    for s in reversed(stmts[:idx[0]]):
+                        e = strip(s.get("e") or s.get("init") or {})
+                        if e.get("k") == "If" and diverges(e["then"]) and e.get("else") is None:
+                            atoms = cond_atoms(ctx, e["cond"], True)
+                            if len(atoms) == 1 and atoms[0][0] == "cmp" and atoms[0][1] == "==" and val in (atoms[0][2], atoms[0][3]) and \
+                                    (is_zero_term(atoms[0][2]) or is_zero_term(atoms[0][3])):
+                                guarded = True
+                            break
+                        if any(x.get("k") in ("For", "While", "Loop") for x in walk(s)):
+                            break
+                if idx and not guarded:
                     for s in stmts[idx[0] + 1:]:
                         e = strip(s.get("e") or s.get("init") or {})
                         if e.get("k") == "If" and diverges(e["then"]) and e.get("else") is None:
